@@ -241,3 +241,24 @@ Proof.
   rewrite (canonical_dotted ip fp H2 H3 H5 H6 H7). cbn [andb].
   apply Qle_bool_iff. rewrite Hq, H4. apply hundredths_close.
 Qed.
+
+(* the statement-level print oracle (two decimals, unit, within 1/200) is implied by the canonical one, so the model's
+   printer meets it as well *)
+Lemma canonical_two_decimals : forall num, canonical_number num = true -> two_decimals num = true.
+Proof.
+  intros num H. unfold canonical_number in H. unfold two_decimals.
+  destruct (split_ch 46 num) as [|a [|b [|c r]]]; try discriminate.
+  - apply andb_true_iff in H. destruct H as [H _]. exact H.
+  - repeat (apply andb_true_iff in H; destruct H as [H ?]). rewrite H. cbn [andb].
+    match goal with K : all_digits b = true |- _ => rewrite K end. cbn [andb]. assumption.
+Qed.
+
+Lemma ok_print_implies_stmt : forall v u p, ok_print v u p = true -> ok_print_stmt v u p = true.
+Proof.
+  intros v u p H. unfold ok_print in H. unfold ok_print_stmt. destruct (spec_split p) as [[num u']|]; [|discriminate].
+  apply andb_true_iff in H. destruct H as [H H3]. apply andb_true_iff in H. destruct H as [H1 H2].
+  rewrite H1, (canonical_two_decimals _ H2), H3. reflexivity.
+Qed.
+
+Theorem ok_print_stmt_model : forall v u, (0 <= v)%Q -> ok_print_stmt v u (size_str (mkSize v u)) = true.
+Proof. intros v u H. apply ok_print_implies_stmt, ok_print_model. exact H. Qed.
